@@ -140,7 +140,17 @@ where
         // (it has its own copy of the current-chunk pointer, so the view must be re-read afterwards)
         let unwound = region(ctx, |ctx| {
             if let Ok(mut bv) = scope.try_by_value() {
-                level(&mut bv, ctx, depth + 1, q);
+                if ctx.rng.chance(1, 3) {
+                    // the owned scope converted to a higher minimum alignment (BumpScope::with_settings)
+                    ctx.begin(format!("by_value().with_settings<MIN_ALIGN=16> (outer {})", S::MIN_ALIGN));
+                    let mut bv16 = bv.with_settings::<S::WithMinimumAlignment<16>>();
+                    after(ctx, &bv16, Expect::default());
+                    ctx.ev("align_raise");
+                    ctx.rep.count("scope_with_settings");
+                    level(&mut bv16, ctx, depth + 1, q);
+                } else {
+                    level(&mut bv, ctx, depth + 1, q);
+                }
             }
         });
         ctx.sh.kill_deeper_than(depth);
